@@ -67,7 +67,7 @@ func parseKafkaVersion(kafkaVersion string) sarama.KafkaVersion {
 func GetSaramaConfigFromClientProfile(profileName string) *sarama.Config {
 	// Set config root and defaults
 	configRoot := "client-profile." + profileName
-	if (profileName != "") && (!viper.IsSet("client-profile." + profileName)) {
+	if (profileName != "") && (!IsConfiguredEntry("client-profile", profileName)) {
 		panic("unknown client-profile '" + profileName + "'")
 	}
 
